@@ -1949,8 +1949,12 @@ impl TypeChecker {
 
     fn div(&mut self, span: Span, ctx: TypeCtx, a: TyID, b: TyID) -> TypeResult<()> {
         match (self.find_type(a), self.find_type(b)) {
-            (Type::Unknown, _) => Ok(()),
-            (_, Type::Unknown) => Ok(()),
+            (Type::Unknown, _) | (_, Type::Unknown) => {
+                // Checked again when the unknown side becomes known.
+                self.add_constraint(a, span, Constraint::DivTop(b));
+                self.add_constraint(b, span, Constraint::DivBot(a));
+                Ok(())
+            }
 
             (Type::Float | Type::Int, Type::Float | Type::Int) => Ok(()),
 
